@@ -432,3 +432,36 @@ Proof.
   destruct (run_tx s1 base pend' rest) as [os' ok] eqn:Ht. intros H. injection H as E1 E2. subst ok.
   rewrite (IH _ _ Ht). rewrite E1. reflexivity.
 Qed.
+
+(* ------------------------------------------------------------------ the simulated key sets under ExecuteActions *)
+
+(* each action's own simulated key set is sufficient for that action under the per-action scope of
+   ExecuteActions (every check the action performed was recorded in its own set) *)
+Lemma sim_exec base :
+  forall ps pend rs, run_sim base pend ps = Some rs -> sim_touch_valid base pend ps = true ->
+    run_exec base pend (combine (map snd rs) ps) = (map fst rs, true).
+Proof.
+  induction ps as [|p rest IH]; intros pend rs; cbn [run_sim sim_touch_valid].
+  - intros H _. inversion H; subst. reflexivity.
+  - destruct (run MRecord base p pend []) as [[[o pend'] rec]|] eqn:Hr; [|discriminate].
+    destruct (run_sim base pend' rest) as [rs'|] eqn:Hs; [|discriminate].
+    intros H Hv. inversion H; subst. apply andb_prop in Hv. destruct Hv as [Hv1 Hv2].
+    destruct (run_record_scope _ _ _ _ _ _ _ Hr Hv1) as [new [E [_ Hrun]]].
+    rewrite app_nil_r in E. subst rec.
+    cbn [map fst snd combine run_exec].
+    pose proof (Hrun (perm_of new) [] (fun k q Hin => perm_of_in new k q Hin)) as Hsc.
+    pose proof (run_shift (MScope (perm_of new)) base pend p [] []) as Hsh. cbn [app] in Hsh.
+    rewrite Hsc in Hsh.
+    destruct (run (MScope (perm_of new)) (vis base pend) p [] []) as [[[o2 pd] rc]|]; cbn [shift] in Hsh;
+      [|discriminate Hsh].
+    injection Hsh as E1 E2 E3. subst o2 pend'.
+    rewrite (IH _ _ Hs Hv2). reflexivity.
+Qed.
+
+Lemma simulate_sufficient_execute base fee (ps : list prog) rs :
+  run_sim (vis base fee) [] ps = Some rs ->
+  sim_touch_valid base fee ps = true ->
+  run_exec (vis base fee) [] (combine (map snd rs) ps) = (map fst rs, true).
+Proof.
+  rewrite run_sim_vis, run_exec_vis. cbn [app]. apply sim_exec.
+Qed.
